@@ -27,6 +27,7 @@ inductive MOp
   | svcOther
   | stopDone (called : Bool) (succ : Bool)
   | tick
+  | setRes (i : Nat) (up : Bool)       -- the environment made service i resolvable / unresolvable
   deriving DecidableEq, Repr
 
 /-- what the node showed during one operation -/
@@ -46,12 +47,13 @@ structure Mon where
   cur : NS                      -- node state after the previous operation
   stopsTotal : Nat
   stopOk : Bool                 -- a StopNode completion with succ = true has been delivered
+  unres : List Nat              -- hosted services the node currently cannot resolve (GetService = nil)
   inlineStop : Option Bool      -- the environment completes StopNode inside the call, with this result (none: later)
   deriving DecidableEq, Repr
 
-def Mon.init (n : Nat) (declared : List Nat) (inline : Option Bool := none) : Mon :=
+def Mon.init (n : Nat) (declared : List Nat) (inline : Option Bool := none) (unres : List Nat := []) : Mon :=
   { n := n, declared := declared, reported := [], cur := .working, stopsTotal := 0, stopOk := false,
-    inlineStop := inline }
+    unres := unres, inlineStop := inline }
 
 def inlineOf : StopMode → Option Bool
   | .later => none | .inlineOk => some true | .inlineFail => some false
@@ -78,6 +80,7 @@ def Mon.learn (m : Mon) (op : MOp) : Mon :=
   | .qack i true => { m with declared := i :: m.declared }
   | .svcRetired i => if i < m.n then { m with reported := i :: m.reported } else m
   | .stopDone true true => { m with stopOk := true }
+  | .setRes i up => { m with unres := if up then m.unres.filter (· != i) else i :: m.unres }
   | _ => m
 
 def isCmdOp : MOp → Bool
@@ -113,9 +116,11 @@ def Mon.clauses (m : Mon) (op : MOp) (o : Obs) : List (Bool × String) :=
     (decide (o.stops > 0) && !exitAccepted op o, "C12/stopnode-without-exit"),
     -- services are told to retire only as part of an accepted retire
     (o.sent.any (fun p => p.2 == SCmd.retire) && !retireAccepted op o, "C12/retire-sent-without-accept"),
-    -- retire: every hosted service declared support, every hosted service is told, the node is retiring
+    -- retire: every hosted service declared support, every hosted service the node can resolve is told,
+    -- the node is retiring
     (retireAccepted op o && !allIn m.n m.declared, "C12/retire-accepted-without-support"),
-    (retireAccepted op o && !(List.range m.n).all (fun i => o.sent.contains (i, SCmd.retire)),
+    (retireAccepted op o &&
+        !(List.range m.n).all (fun i => m.unres.contains i || o.sent.contains (i, SCmd.retire)),
       "C12/retire-not-told-everyone"),
     (retireAccepted op o && o.st != .retiring, "C12/retire-accepted-not-retiring"),
     -- retired only after every hosted service reported retired ...
@@ -152,12 +157,22 @@ def Mon.runAll (m : Mon) : List (MOp × Obs) → Option String
     | some v => some v
     | none => (m.step op o).1.runAll rest
 
+/-- a service kind whose reception of a command is observable and that is resolvable at start -/
+def probedKind : Kind → Bool
+  | .raw | .nodeOk | .nodeNo | .nodeEmpty => true
+  | _ => false
+
 /-- the monitor at the start of a case, from the observation of the start-up probe: a
-NodeService-kind service with an "ok" listener declared its support when it was asked -/
+NodeService-kind service with an "ok" listener declared its support when it was asked; the
+controller must host — and therefore probe — every configured service it can resolve -/
 def Mon.reset (kinds : List Kind) (ob : Obs) (inline : Option Bool := none) : Mon × Option String :=
   let declared := (List.range kinds.length).filter fun i =>
     kinds[i]? == some Kind.nodeOk && ob.sent.contains (i, SCmd.queryretire)
-  (Mon.init kinds.length declared inline).step .tick ob
+  let unres := (List.range kinds.length).filter fun i => !reachableAt kinds i
+  let probed := (List.range kinds.length).all fun i =>
+    !(match kinds[i]? with | some k => probedKind k | none => false) || ob.sent.contains (i, SCmd.queryretire)
+  let r := (Mon.init kinds.length declared inline unres).step .tick ob
+  (r.1, if probed then r.2 else some "C12/hosted-service-not-probed")
 
 /-- a whole case: the probe observation, then the trace -/
 def monitorCase (kinds : List Kind) (inline : Option Bool) (resetObs : Obs) (tr : List (MOp × Obs)) :
@@ -186,6 +201,7 @@ def mopOf (s : St) : Op → MOp
   | .svcOther _ => .svcOther
   | .stopDone succ => .stopDone (decide (0 < s.stopPend)) succ
   | .tick => .tick
+  | .setRes i up => .setRes i up
 
 /-- the observable trace of the model from state `s` -/
 def traceOf (s : St) : List Op → List (MOp × Obs)
